@@ -20,6 +20,8 @@
 //   message): the stop is under way and the logger thread is inside the pipeline for the last message - the late message must
 //   still be handed to the logger thread (never run by the caller next to it) and be delivered after it.
 // Texts: every 9th message carries a leading / embedded / trailing U+0000.  line = index * 64 + producer.
+//   Empty texts (null QString / ""): message 0 of the producers with (p + seed) odd, the last message of the others, every 13th
+//   (i % 13 == 8) of every producer; some of them carry a pre-set formatted text (i % 6 == 1).  The sink finds (p, i) in the line then.
 // Time formats ("tfmt" = 1): the pipeline on the worker additionally holds PatternFormatter("%{time process}~%{time boot}~%{time hh:mm:ss.zzz}")
 //   in front of the sink, so that the TEXT the sink receives carries the message's time stamps as the library renders them.  bare
 //   mode: the twin's formatted text is what the same formatter yields synchronously on the original message (exact equality is
@@ -212,7 +214,7 @@ int main(int argc, char **argv)
                 if (tl_rng() % 64 == 0) usleep(tl_rng() % 200);     // bursts
             }
         };
-        auto fields = [](int p, int i, char *&f, char *&fn, char *&c, int &ln, QtMsgType &ty, QString &text) {
+        auto fields = [&per, &seed](int p, int i, char *&f, char *&fn, char *&c, int &ln, QtMsgType &ty, QString &text) {
             f = (i % 5 == 0) ? nullptr : heapstr("/src/dir" + std::to_string(p) + "/file" + std::to_string(i % 3) + ".cpp");
             fn = (i % 5 == 0) ? nullptr : heapstr("void Cls" + std::to_string(p) + "::fn" + std::to_string(i) + "(int, const QString &)");
             c = (i % 7 == 3) ? nullptr : heapstr("cat." + std::to_string(i % 4));
@@ -221,6 +223,10 @@ int main(int argc, char **argv)
             if (i % 9 == 2) text.prepend(QChar(0));                       // NUL characters are part of the text
             else if (i % 9 == 4) text.insert(text.size() / 2, QChar(0));
             else if (i % 9 == 6) text.append(QChar(0));
+            // empty texts (alternately a null QString and ""): the first message of every other producer, the last message of the
+            // others, and every 13th in between - the sink then identifies the message by its line number
+            const bool first_empty = (i == 0 && (p + seed) % 2 == 1), last_empty = (per > 2 && i == per - 1 && (p + seed) % 2 == 0);
+            if (first_empty || last_empty || i % 13 == 8) text = ((i + p) % 2) ? QString() : QStringLiteral("");
         };
         std::vector<std::thread> ths;
         const bool drainlast = mode == "drainlast";
